@@ -3,7 +3,7 @@ import json, os
 from vlib import core
 
 THEOREMS = ['accept_iff', 'src_checkInitialMessage', 'src_accept_iff', 'payloadOk_iff', 'initial_refines', 'silent_on_reject', 'reject_is_final', 'gated', 'served_after_negotiation',
-            'early_callers_fail', 'setup_failure_returns', 'gate_sites']
+            'early_callers_fail', 'setup_failure_returns', 'gate_sites', 'first_message_once']
 MODULES = ['LLRP.Model.ClientLTS', 'LLRP.Model.Initial', 'LLRP.Model.GoSeq', 'LLRP.Proofs.SeqInitial', 'LLRP.Proofs.ClientLTS', 'LLRP.Proofs.ClientLTS2', 'LLRP.Proofs.ClientLive', 'LLRP.Oracle.LTSim', 'LLRP.Oracle.C08']
 RULE = ('initial: the real checkInitialMessage on a recorded connection for each of the 46 message types x ConnectionAttemptEvent status '
         '0..5, 255, 65535 (thorough 0..255) x {well-formed, empty, truncated stream, declared too long / too short, oversize claim, garbage}; '
